@@ -124,6 +124,19 @@ def run_impl(case):
         out["boundary_t"] = b[0].t.tolist()
         out["boundary_owner"] = [int(x) for x in b[1]]
         out["boundary_v_same"] = bool(np.array_equal(b[0].v, v))
+        # other forms of the per-tetra function: integer, boolean, several columns (e.g. centroids), a Python list
+        forms = {}
+        idx = np.arange(len(t))
+        for name, tf in (("int", idx.astype(np.int64) * 3), ("bool", idx % 2 == 0),
+                         ("cols3", np.stack([idx * 1.0, idx * 10.0 + 1, -idx * 1.0], axis=1)), ("list", [float(i) for i in idx])):
+            try:
+                bb = m.boundary_tria(tf)
+                got = np.asarray(bb[1])
+                ref = np.asarray(tf)[np.array(out["boundary_owner"], dtype=int)] if len(out["boundary_owner"]) else np.asarray(tf)[:0]
+                forms[name] = bool(got.shape == ref.shape and np.array_equal(got, ref))
+            except Exception as e:
+                forms[name] = core.errkind(e)
+        out["func_forms"] = forms
         m2 = TetMesh(v.copy(), t.copy())
         r = m2.orient_()
         out["orient_count"] = int(r)
@@ -200,6 +213,9 @@ def oracle(case, out):
         bad("boundary_exactly_faces_in_one_tet", f"got {len(got)} faces, expected {len(expect)}")
     if not out["boundary_v_same"]:
         bad("boundary_keeps_vertex_array", "v differs")
+    for name, ok in out.get("func_forms", {}).items():
+        if ok is not True and not (name == "list" and isinstance(ok, str)):      # a plain list need not be accepted, but must not be mangled
+            bad("boundary_function_from_owner", f"per-tetra function given as {name}: {ok}", "func_form_" + name)
     for f, owner in zip(out["boundary_t"], out["boundary_owner"]):
         if not (0 <= owner < len(t)) or not set(f) <= set(t[owner]):
             bad("boundary_function_from_owner", f"face {f} owner {owner}")
